@@ -18,7 +18,10 @@ MANIFEST = {
     "text": "Partial: configurations and seeded random orders are explored, not proved; the unbuffered engine's cycle "
             "handling is not modelled. Lean covers the specification and the stages downstream of the grounder.",
     "note": "Trusted: harness. Known findings (unbuffered modes raising IndirectCallCycleError/InvalidEngineState, F1) are "
-            "matched by raise site and reported as KNOWN-FINDING.",
+            "matched by raise site and reported as KNOWN-FINDING. Inside their region a pinned corpus "
+            "(corpus/C04/unbuffered_agree.json: programs with recursion + negation / several recursive predicates / ADs / "
+            "complementary proofs on which every variant agreed with the specification when it was built) is replayed on "
+            "every run; a changed outcome there is reported as a corpus-regression and is never matched by a finding.",
     "design_ref": "DESIGN.md §6 C04",
 }
 
@@ -38,6 +41,21 @@ def variants(P, seed):
 
 def run(ctx):
     N[0] = ctx.budget(3, 15)
+    # pinned regression corpus (tools/gen_c04_corpus.py): programs inside the region of the known findings (recursion with
+    # a negated goal in the recursive clause, recursion through several predicates, annotated disjunctions, complementary
+    # proofs `p :- a. p :- \\+a.`) on which EVERY variant of the tree gave the specification's answer when the corpus was
+    # built. Replayed first under the same variants; a changed outcome is a corpus-regression, which no finding matches
+    # (the known findings' signatures - exception class + raise site + mode - would otherwise absorb a new defect that
+    # ends in the same exception).
+    import explore_util
+    drv = ctx.driver("Drivers.Spine")
+    if drv is not None:
+        if explore_util.replay_case(ctx, drv, variants):
+            ctx.proof_phase(MODULE, THEOREMS)
+            return ctx.finish("other", "replay of a corpus regression")
+        if not ctx.replay_in:
+            explore_util.corpus_replay(ctx, drv, explore_util.corpus_path("C04", "unbuffered_agree.json"), variants,
+                                       "region of the unbuffered-mode findings")
     ctx.rule = ("generated programs x {default, unbuffered, unbuffered+rc_first, seeded RandomOrderEngine}; non-trivial = at "
                 "least one query instance and more than one world")
     return cfgprop.run(ctx, MODULE, THEOREMS, variants, nq=50, nt=700, level="other",
